@@ -24,7 +24,8 @@ FieldPool  == << Same("f"), Same("all"), P("`x y`", "x y") >>       \* after '.'
 FuncPool   == << Same("fn"), Same("safe"), Same("IF1") >>
 IntPool    == << Same("1"), Same("0x1F"), Same("007") >>
 FloatPool  == << Same("1.5"), Same(".5"), Same("1e3"), Same("1.") >>
-StrPool    == << P("'s'", "s"), P("\"it's\"", "it's"), P("r'\\d'", "\\d"), P("'''a''b'''", "a''b") >>
+StrPool    == << P("'s'", "s"), P("\"it's\"", "it's"), P("r'\\d'", "\\d"), P("'''a''b'''", "a''b"),
+                 P("\"\\xff\\ufffd\"", "?"), P("'10\\u00a0km\\n'", "?") >>      \* an invalid UTF-8 byte next to U+FFFD; a non-printable Latin-1 code point
 BytesPool  == << P("b'x'", "x"), P("B\"\\x00y\"", "?y"), P("rb'\\n'", "\\n") >>
 ParamPool  == << P("@p", "p"), P("@Limit", "Limit") >>
 
@@ -46,6 +47,7 @@ SimpleTypeNames == <<"INT64", "BOOL", "FLOAT32", "FLOAT64", "DATE", "TIMESTAMP",
 SimpleType(n) == Tmpl("SimpleType", <<KW(n), SET("Name", n)>>)
 TypeTmpls ==
   [j \in 1..Len(SimpleTypeNames) |-> SimpleType(SimpleTypeNames[j])] \o
+  << Tmpl("SimpleType", <<TOK("id", "`Date`"), SET("Name", "DATE")>>) >> \o      \* type names are matched on the decoded name
   << Tmpl("ArrayType", <<T("ARRAY"), T("<"), N("Item", "Type"), T(">")>>),
      Tmpl("StructType", <<T("STRUCT"), T("<"), L("Fields", "StructField", ",", 0), T(">")>>),
      Tmpl("NamedType", <<L("Path", "TypeNameId", ".", 1)>>) >>
